@@ -153,10 +153,10 @@ def opScanProject : Handler := fun a => do
   let langGlobs ← lgJ.toList.mapM fun e => do
     let p ← e.getArr?
     match p.toList with
-    | [l, gs] => do
+    | [k, l, gs] => do
       let gs ← gs.getArr?
       let gs ← gs.toList.mapM (·.getStr?)
-      pure ((← l.getNat?), gs.map strBytes)
+      pure (strBytes (← k.getStr?), (← l.getNat?), gs.map strBytes)
     | _ => throw "langGlobs entry"
   let gm ← getPairsSel a "gm"
   let tgm ← getPairsSel a "tgm"
